@@ -207,6 +207,7 @@ class Explorer:
         watch=None,
         oracle=None,
         call_value=None,
+        fold_constants: bool = True,
     ) -> None:
         self.prog = prog
         self.env = dict(env or {})
@@ -221,6 +222,8 @@ class Explorer:
         self.oracle = oracle  # callable(substituted test) -> True | False | None, consulted before everything else
         self.call_value = call_value  # callable(fi, call node, resolved funcs) -> expression standing for the call's value | None
         self.watch = watch  # predicate on syntax nodes: an "expr" event with the substituted node is emitted for each match
+        self.fold_constants = fold_constants  # scalar module-level constants (TAG = 1, KEY = "edges") read as their value
+        self._scalars: dict = {}
         self._count = 0
         self._comp_of: dict = {}
         self._tmp = 0
@@ -236,6 +239,10 @@ class Explorer:
             if isinstance(n, ast.Name):
                 if isinstance(n.ctx, ast.Load) and n.id in store and n.id not in shadow:
                     return copy.deepcopy(store[n.id])
+                if isinstance(n.ctx, ast.Load) and n.id not in shadow and self.fold_constants and self._stack:
+                    c = self._module_scalar(n.id)
+                    if c is not None:
+                        return c
                 return n
             if isinstance(n, ast.Attribute) and isinstance(n.ctx, ast.Load):
                 d = dotted(n)
@@ -337,6 +344,38 @@ class Explorer:
         if _size(out) > 1500:
             return ast.Call(func=ast.Name(id=BIG, ctx=ast.Load()), args=[ast.Constant(value=unparse(node)[:60])], keywords=[])
         return out
+
+    def _module_scalar(self, name: str):
+        """Constant node for a module-level name bound once to a str / bytes / int / float scalar (directly or computed
+        from such constants), None otherwise; parameters and locals of the current function shadow it"""
+        fi = self._stack[-1]
+        key = (fi.module.name, name)
+        if key not in self._scalars:
+            val = None
+            f_ = fi
+            local = False
+            while f_ is not None:
+                if name in f_.param_names() or name in _bound_names(f_.node.body):
+                    local = True
+                    break
+                f_ = getattr(f_, "parent", None)
+            if not local:
+                from .effects import module_const_env
+
+                try:
+                    env = module_const_env(self.prog, fi.module)
+                except Exception:  # noqa: BLE001
+                    env = {}
+                if name in env and isinstance(env[name], (str, bytes, int, float)) and not isinstance(env[name], bool):
+                    val = env[name]
+            self._scalars[key] = val
+        v = self._scalars[key]
+        if v is None:
+            return None
+        fi_names = fi.param_names()
+        if name in fi_names:
+            return None
+        return ast.Constant(value=v)
 
     # ------------------------------------------------------------------ literal containers
     def literal_items(self, it: ast.AST, fi: FuncInfo) -> list | None:
